@@ -16,6 +16,10 @@ Static clauses decided (necessary conditions of C20):
          populate_criteria_list(where_list, ...), where_list into the UPDATE ast, optimistic_values into the bound values,
          and both into the SQL cache key; the only exemption is `not optimistic session or obj in cache.for_update`.
  CHECK   after executing the UPDATE, `cursor.rowcount == 0` in an optimistic session throws OptimisticCheckError.
+ OWNBITS the bit recorded for an attribute of object X is looked up in X's OWN bit table (X._bits_except_volatile_ -- per
+         concrete class): attributes declared in a subclass have no bit in the base entity's table, so a mask computed from the
+         entity a query iterates over silently drops them, and a value the session selected on is left out of the optimistic
+         check.  Checked for every statement in core.py that adds bits to `<X>._rbits_`.
 """
 NOT_DECIDED = "interleavings; what the database does with the WHERE clause; deletes (pony performs no optimistic check on DELETE)"
 
@@ -60,6 +64,30 @@ def run(ctx):
                                       'are left out of the optimistic WHERE clause' % (norm(gov.test), bitvar, '' if src_ok else ' (bit not taken from _bits_except_volatile_)')),
                        node=gov, expected='if wbits is not None and not wbits & bit: obj._rbits_ |= bit')
     ctx.floor('C20-READ', n, 2, 'sites recording a read bit')
+    # ---------------------------------------------------------------- OWNBITS
+    nown = 0
+    for fn in repo.rule_funcs():
+        if fn.mod.name != 'pony.orm.core': continue
+        stmts = list(walk_no_nested(fn.node))
+        for a in stmts:
+            if not (isinstance(a, ast.AugAssign) and isinstance(a.op, ast.BitOr) and isinstance(a.target, ast.Attribute) and a.target.attr == '_rbits_'): continue
+            owner = norm(a.target.value)
+            exprs = [a.value]; seen = set()
+            for _ in range(3):          # follow local names back to their definitions
+                for e in list(exprs):
+                    for nm in [x.id for x in ast.walk(e) if isinstance(x, ast.Name)]:
+                        if nm in seen: continue
+                        seen.add(nm)
+                        exprs += [x.value for x in stmts if isinstance(x, ast.Assign) and any(dotted(t) == nm for t in x.targets)]
+            recvs = {norm(y.value) for e in exprs for y in ast.walk(e) if isinstance(y, ast.Attribute) and y.attr in ('_bits_except_volatile_', '_bits_', '_all_bits_except_volatile_')}
+            if not recvs: continue      # bits copied from the object's own _wbits_ etc.
+            nown += 1
+            ok = recvs <= {owner, owner + '.__class__'}
+            ctx.ob('C20-OWNBITS.read-bit-from-the-objects-own-table', fn, a, ok,
+                   '' if ok else 'the bits added to %s._rbits_ are computed from the bit table of %s, not of %s: attributes declared in a subclass have no bit there, '
+                   'their reads are not recorded and they are left out of the optimistic check' % (owner, sorted(recvs - {owner}), owner), node=a,
+                   expected='%s._bits_except_volatile_' % owner)
+    ctx.floor('C20-OWNBITS', nown, 4, 'statements adding bits to _rbits_')
     # ---------------------------------------------------------------- CRIT
     cc = repo.fn(CORE, 'Entity._construct_optimistic_criteria_')
     loops = [s for s in walk_no_nested(cc.node) if isinstance(s, ast.For)]
@@ -124,6 +152,7 @@ def run(ctx):
 
 
 MUTANTS = [
+    dict(id='C20-o1', file='pony/orm/core.py', fn='EntityMeta._set_rbits', old="rbits = builtins.sum(obj._bits_except_volatile_.get(attr, 0) for attr in attrs)", new="rbits = builtins.sum(entity._bits_except_volatile_.get(attr, 0) for attr in attrs)", expect='C20-OWNBITS'),
     dict(id='C20-m1', file='pony/orm/core.py', fn='Attribute.__get__', old='if wbits is not None and not wbits & bit: obj._rbits_ |= bit', new='if wbits is not None and not (wbits and bit): obj._rbits_ |= bit', expect='C20-READ'),
     dict(id='C20-m2', file='pony/orm/core.py', fn='Attribute.__get__', old='bit = obj._bits_except_volatile_[attr]', new='bit = obj._bits_[attr]', expect='C20-READ'),
     dict(id='C20-m3', file='pony/orm/core.py', fn='Entity._save_updated_', old='            if optimistic_session and obj not in cache.for_update:', new='            if optimistic_session and not cache.for_update:', expect='C20-FLOW.exemption'),
